@@ -250,7 +250,15 @@ fn faults(rep: &mut Report, input: &[u8], q: &Q, _rng: &mut Rng, src_tag: &str) 
             rep.distinct(hash2(base, hash2(api as u64, k as u64)));
             let kind = FAULT_KINDS[(k + api as usize) % FAULT_KINDS.len()];
             rep.count(&format!("fault-kind:{:?}", kind));
-            let fr = FaultReader::with_kind(input, k, kind);
+            // persistent failure, or (alternating) a transient one after which the stream
+            // resumes / reports end of input: the first error must surface all the same
+            let after = match (k + api as usize) % 3 {
+                0 => AfterFault::Forever,
+                1 => AfterFault::Resume,
+                _ => AfterFault::Eof,
+            };
+            rep.count(&format!("fault-then:{:?}", after));
+            let fr = FaultReader::with_kind(input, k, kind).then(after);
             let errs = fr.errors_returned.clone();
             let got = run_api(api, fr, o, || {});
             // expectation
